@@ -120,6 +120,11 @@ def build():
             self.per = SimPersistent("q", "q", sim)
             self.q = 0
             sim.schedule_event_now(self, "arrive")
+            # a burst of thirty simultaneous events early in the run: the
+            # pause patterns below stop at every position inside it
+            for k in range(30 if self.nmax is None else 0):
+                sim.schedule_event_abs(0.25, self, "extra", 5,
+                                       who="burst%d" % k)
             for k in range(3):           # equal time, equal priority: id order
                 sim.schedule_event_abs(1.0, self, "extra", 5, who="init%d" % k)
             # events exactly at the end of the replication, and long-pending
@@ -361,7 +366,7 @@ def child_main(kind):
         pats = [("step-all",), ("upto", 3.0), ("upto", WARM), ("upto", 1.0),
                 ("upto", END), ("upto", END + 1.0), ("other-sim", 3.0),
                 ("other-sim", 1.0)]
-        pats += [("stop-at", k) for k in range(1, 40)]
+        pats += [("stop-at", k) for k in range(1, 56)]
         for p in pats:
             out["/".join(str(x) for x in p)] = one(p)
         out["second-replication"] = one(("run",))
@@ -370,7 +375,7 @@ def child_main(kind):
         # (no stepping here: step() is documented to notify the clock
         # listeners for every event, run only when the time changes)
         for p in [("upto", 3.0), ("upto", 1.0), ("upto", 1.5)] + \
-                [("stop-at", k) for k in range(1, 24)]:
+                [("stop-at", k) for k in range(1, 40)]:
             out["late:" + "/".join(str(x) for x in p)] = one(p, True)
     json.dump(out, sys.stdout)
     return keep
@@ -534,7 +539,7 @@ def run(ctx):
         "pause pattern): configurations = PYTHONHASHSEED in %s x prior "
         "activity in %s (SimEvent id counter crossing 2^16 / 2^20 during the "
         "run); pause patterns = uninterrupted, step-all, run_up_to(3), "
-        "run_up_to(warm-up), stop at handler k for k=1..39, and a second "
+        "run_up_to(warm-up), stop at handler k for k=1..55 (every position inside a burst of thirty simultaneous events), and a second "
         "replication. Same pattern => identical full digest (event log, "
         "statistics hex, complete notification stream) across all processes; "
         "different patterns => identical reduced digest (event log, "
